@@ -3906,7 +3906,7 @@ let gc_one minidle name s =
 
 let shutdown_all s =
   let s1 =
-    fold_left (fun s0 pat -> let (name, _) = pat in gc_one (Zneg XH) name s0)
+    fold_left (fun s0 pat -> let (name, _) = pat in gc_one Z0 name s0)
       (map_to_list
         (gmap_to_list (list_eq_dec0 byte_eq_dec0)
           (list_countable byte_eq_dec0 byte_countable)) s.l_map) s
